@@ -156,4 +156,435 @@ structure Lay (i i' : Input) : Prop where
   string : i'.token.kind = .string → ∃ q rest, i'.tokRev.reverse = q :: rest ∧ (q = 34 ∨ q = 96)
   ident : i'.token.kind = .ident → isIdent i'.peekRune = false ∨ i'.peekPrefix [47, 47] = true
 
+
+theorem onBase_start (i : Input) : OnBase i.consumedRev (startToken i) := rfl
+
+theorem lay_of_endToken {i j : Input} {k : TokKind} {gap : Bytes} (hws : WS gap)
+    (hb : OnBase (gap.reverse ++ i.consumedRev) j)
+    (heof : k = .eof → j.remaining = [] ∧ j.tokRev = [])
+    (hcom : k.isComment = true →
+      (∃ more, j.tokRev = more ++ [47, 47]) ∧ (j.consumedRev.head? = some 10 ∨ j.remaining = []))
+    (hstr : k = .string → ∃ q rest, j.tokRev.reverse = q :: rest ∧ (q = 34 ∨ q = 96))
+    (hid : k = .ident → isIdent j.peekRune = false ∨ j.peekPrefix [47, 47] = true) :
+    Lay i (endToken k j) :=
+  ⟨⟨gap, hws, hb⟩, heof, hcom, hstr, hid⟩
+
+theorem lay_comments {i i' : Input} (c : List Comment) (h : Lay i i') : Lay i { i' with commentsRev := c } :=
+  ⟨h.gap, h.eof, h.comment, h.string, h.ident⟩
+
+theorem peekPrefix_slashes {i : Input} (h : i.peekPrefix [47, 47] = true) : ∃ t, i.remaining = 47 :: 47 :: t := by
+  unfold Input.peekPrefix at h
+  cases hr : i.remaining with
+  | nil => rw [hr] at h; simp [isPrefixOfB] at h
+  | cons a r1 =>
+    rw [hr] at h
+    cases r1 with
+    | nil => simp [isPrefixOfB] at h
+    | cons b r2 =>
+      simp [isPrefixOfB] at h
+      exact ⟨r2, by rw [← h.1, ← h.2]⟩
+
+theorem readComment_lay {i i0 i' : Input} {gap : Bytes} (hws : WS gap)
+    (h0 : i0.consumedRev = gap.reverse ++ i.consumedRev) (hp : i0.peekPrefix [47, 47] = true)
+    (h : readComment i0 = .ok i') : Lay i i' := by
+  obtain ⟨t, ht⟩ := peekPrefix_slashes hp
+  unfold readComment at h
+  simp only [bind, Except.bind] at h
+  cases h1 : readRune (startToken i0) with
+  | error e => simp [h1] at h
+  | ok v1 =>
+    have hv1 : readRune (startToken i0) = .ok (v1.1, v1.2) := by rw [h1]
+    have hpk1 : (startToken i0).peekRune = 47 := by
+      unfold Input.peekRune
+      rw [startToken_remaining, ht]
+      exact congrArg Prod.fst (decodeRune_ascii 47 _ (by decide))
+    obtain ⟨_, htk1, hrem1, _⟩ := readRune_ascii hv1 (by rw [hpk1]; decide)
+    rw [hpk1, startToken_remaining, ht] at hrem1
+    simp only [h1] at h
+    cases h2 : readRune v1.2 with
+    | error e => simp [h2] at h
+    | ok v2 =>
+      have hv2 : readRune v1.2 = .ok (v2.1, v2.2) := by rw [h2]
+      have hrem1' : v1.2.remaining = 47 :: t := by
+        have : (UInt8.ofNat 47 : UInt8) = 47 := rfl
+        rw [this] at hrem1
+        exact (List.cons.inj hrem1).2.symm
+      have hpk2 : v1.2.peekRune = 47 := by
+        unfold Input.peekRune
+        rw [hrem1']
+        exact congrArg Prod.fst (decodeRune_ascii 47 _ (by decide))
+      obtain ⟨_, htk2, _, _⟩ := readRune_ascii hv2 (by rw [hpk2]; decide)
+      simp only [h2] at h
+      cases h3 : consumeLine (v2.2.remaining.length + 1) v2.2 with
+      | error e => simp [h3] at h
+      | ok v3 =>
+        simp only [h3] at h
+        have hb1 := onBase_readRune _ _ _ (onBase_start i0) hv1
+        have hb2 := onBase_readRune _ _ _ hb1 hv2
+        have hb3 : OnBase i0.consumedRev v3 :=
+          consumeLine_pres (P := OnBase i0.consumedRev) onBase_readRune _ _ _ hb2 h3
+        have hmore : ∃ more, v3.tokRev = more ++ [47, 47] := by
+          have : ∃ more, v2.2.tokRev = more ++ [47, 47] := by
+            refine ⟨[], ?_⟩
+            rw [htk2, htk1, hpk1, hpk2]; rfl
+          exact consumeLine_pres (P := fun j => ∃ more, j.tokRev = more ++ [47, 47])
+            (by
+              intro j r j' ⟨more, hm⟩ hr
+              unfold readRune at hr
+              split at hr
+              · cases hr
+              · simp only [Except.ok.injEq, Prod.mk.injEq] at hr
+                obtain ⟨_, rfl⟩ := hr
+                exact ⟨(List.take (Utf8.decodeRune j.remaining).2 j.remaining).reverse ++ more, by simp [hm]⟩) _ _ _ this h3
+        have hend := consumeLine_end _ _ _ h3
+        rw [h0] at hb3
+        have hlay : ∀ k : TokKind, k.isComment = true → Lay i (endToken k v3) := by
+          intro k hk
+          refine lay_of_endToken hws hb3 ?_ (fun _ => ⟨hmore, hend⟩) ?_ ?_ <;>
+            (intro hkk; rw [hkk] at hk; cases hk)
+        split at h
+        · cases h; exact hlay _ rfl
+        · cases h; exact lay_comments _ (hlay _ rfl)
+
+
+theorem tokRev_suffix_readRune (q : UInt8) (j : Input) (r : Nat) (j' : Input)
+    (hp : ∃ more, j.tokRev = more ++ [q]) (hr : readRune j = .ok (r, j')) : ∃ more, j'.tokRev = more ++ [q] := by
+  obtain ⟨more, hm⟩ := hp
+  unfold readRune at hr
+  split at hr
+  · cases hr
+  · simp only [Except.ok.injEq, Prod.mk.injEq] at hr
+    obtain ⟨_, rfl⟩ := hr
+    exact ⟨(List.take (Utf8.decodeRune j.remaining).2 j.remaining).reverse ++ more, by simp [hm]⟩
+
+theorem readToken_lay {i i' : Input} (h : readToken i = .ok i') : Lay i i' := by
+  unfold readToken at h
+  simp only [bind, Except.bind] at h
+  cases h0 : skipSpaces (i.remaining.length + 1) i with
+  | error e => simp [h0] at h
+  | ok i0 =>
+    obtain ⟨gap, hws, hc0, _, _, _⟩ := skipSpaces_gap _ _ _ h0
+    simp only [h0] at h
+    have hbase : OnBase (gap.reverse ++ i.consumedRev) (startToken i0) := by
+      have := onBase_start i0
+      rw [hc0] at this; exact this
+    split at h
+    · rename_i hcond
+      simp only [Bool.and_eq_true] at hcond
+      exact readComment_lay hws hc0 hcond.2 h
+    · split at h
+      · cases h
+      · split at h
+        · rename_i heof
+          cases h
+          refine lay_of_endToken hws hbase (fun _ => ⟨?_, rfl⟩) ?_ ?_ ?_
+          · have : i0.eof = true := heof
+            unfold Input.eof at this
+            simpa using this
+          · intro hk; cases hk
+          · intro hk; cases hk
+          · intro hk; cases hk
+        · split at h
+          · cases h1 : readRune (startToken i0) with
+            | error e => simp [h1] at h
+            | ok v1 =>
+              simp only [h1] at h
+              cases h
+              have hb1 := onBase_readRune _ _ _ hbase (show readRune (startToken i0) = .ok (v1.1, v1.2) by rw [h1])
+              refine lay_of_endToken hws hb1 ?_ ?_ ?_ ?_ <;> (intro hk; cases hk)
+          · split at h
+            · rename_i hq
+              cases h1 : readRune (startToken i0) with
+              | error e => simp [h1] at h
+              | ok v1 =>
+                have hv1 : readRune (startToken i0) = .ok (v1.1, v1.2) := by rw [h1]
+                simp only [h1] at h
+                cases h2 : readString (startToken i0).peekRune (v1.2.remaining.length + 1) v1.2 with
+                | error e => simp [h2] at h
+                | ok v2 =>
+                  simp only [h2] at h
+                  cases h
+                  have hb1 := onBase_readRune _ _ _ hbase hv1
+                  have hb2 : OnBase (gap.reverse ++ i.consumedRev) v2 :=
+                    readString_pres (P := OnBase (gap.reverse ++ i.consumedRev)) onBase_readRune _ _ _ _ hb1 h2
+                  have hq' : (startToken i0).peekRune = 34 ∨ (startToken i0).peekRune = 96 := by
+                    simpa [quoteRunes] using hq
+                  have hlt : (startToken i0).peekRune < 128 := by rcases hq' with h | h <;> rw [h] <;> decide
+                  obtain ⟨_, htk, _, _⟩ := readRune_ascii hv1 hlt
+                  have hsuf1 : ∃ more, v1.2.tokRev = more ++ [UInt8.ofNat (startToken i0).peekRune] := ⟨[], by rw [htk]; rfl⟩
+                  obtain ⟨more, hm⟩ := readString_pres (P := fun j => ∃ more, j.tokRev = more ++ [UInt8.ofNat (startToken i0).peekRune])
+                    (tokRev_suffix_readRune _) _ _ _ _ hsuf1 h2
+                  refine lay_of_endToken hws hb2 ?_ ?_ ?_ ?_
+                  · intro hk; cases hk
+                  · intro hk; cases hk
+                  · intro _
+                    refine ⟨UInt8.ofNat (startToken i0).peekRune, more.reverse, by rw [hm]; simp, ?_⟩
+                    rcases hq' with h | h <;> rw [h]
+                    · left; rfl
+                    · right; rfl
+                  · intro hk; cases hk
+            · split at h
+              · cases h
+              · generalize h2 : readIdent _ (startToken i0) = res at h
+                cases res with
+                | error e => simp at h
+                | ok v2 =>
+                  simp only at h
+                  cases h
+                  have hb2 : OnBase (gap.reverse ++ i.consumedRev) v2 :=
+                    readIdent_pres (P := OnBase (gap.reverse ++ i.consumedRev)) onBase_readRune _ _ _ hbase h2
+                  refine lay_of_endToken hws hb2 ?_ ?_ ?_ ?_
+                  · intro hk; cases hk
+                  · intro hk; cases hk
+                  · intro hk; cases hk
+                  · intro _; exact readIdent_exit _ _ _ h2
+
+
+/-! ### the same facts in terms of the input, for the states the parser reaches -/
+
+/-- peekRune of a byte string: 0 at the end -/
+def peekOf (s : Bytes) : Nat :=
+  match s with
+  | [] => 0
+  | _ :: _ => (Utf8.decodeRune s).1
+
+theorem peekRune_eq (i : Input) : i.peekRune = peekOf i.remaining := by
+  unfold Input.peekRune peekOf; cases i.remaining <;> rfl
+
+theorem isPrefixOfB_iff {p s : Bytes} : isPrefixOfB p s = true ↔ p <+: s := by
+  induction p generalizing s with
+  | nil => simp [isPrefixOfB]
+  | cons a p ih =>
+    cases s with
+    | nil => simp [isPrefixOfB]
+    | cons b s => simp [isPrefixOfB, ih, List.cons_prefix_cons]
+
+/-- layout facts about the pending token of a reachable state, in terms of the input -/
+structure RLay (data : Bytes) (i : Input) : Prop where
+  eofText : i.token.kind = .eof → i.token.text = []
+  eof : i.token.kind = .eof → data.drop i.token.pos.byte = []
+  comment : i.token.kind.isComment = true → [47, 47] <+: i.token.text
+  string : i.token.kind = .string → ∃ q rest, i.token.text = q :: rest ∧ (q = 34 ∨ q = 96)
+  ident : i.token.kind = .ident →
+    isIdent (peekOf (data.drop i.token.endPos.byte)) = false ∨ [47, 47] <+: data.drop i.token.endPos.byte
+  eol : (i.token.kind.isEOL = true ∨ i.token.kind = .comment) →
+    (∃ a, data.take i.pos.byte = a ++ [10]) ∨ data.drop i.pos.byte = []
+
+theorem take_pos {data : Bytes} {i : Input} (hb : Inv data i) : data.take i.pos.byte = i.consumedRev.reverse := by
+  rw [← hb.split, hb.byte, ← List.length_reverse]
+  exact List.take_left
+
+theorem drop_pos {data : Bytes} {i : Input} (hb : Inv data i) : data.drop i.pos.byte = i.remaining := by
+  rw [← hb.split, hb.byte, ← List.length_reverse]
+  exact List.drop_left
+
+theorem take_tokpos {data : Bytes} {i : Input} {pre : Bytes} (hb : Inv data i) (hpre : i.consumedRev = i.tokRev ++ pre) :
+    data.take i.token.pos.byte = pre.reverse := by
+  obtain ⟨pre', hpre', hlen⟩ := hb.tok
+  have : pre' = pre := List.append_cancel_left (hpre'.symm.trans hpre)
+  subst this
+  rw [← hb.split, hpre, List.reverse_append, List.append_assoc, ← hlen, ← List.length_reverse]
+  exact List.take_left
+
+theorem rlay_of_step {data : Bytes} {j i : Input} (hj : LInv0 data j) (h : readToken j = .ok i) : RLay data i := by
+  have hl := readToken_lay h
+  have ht : TokOK2 data i := by
+    have := readToken_res hj
+    rw [h] at this; exact this
+  have hb := ht.inv.base
+  obtain ⟨gap, _, hg⟩ := hl.gap
+  refine ⟨?_, ?_, ?_, ?_, ?_, ?_⟩
+  · intro hk
+    obtain ⟨_, htk⟩ := hl.eof hk
+    have hnc : i.token.kind.isComment = false := by rw [hk]; rfl
+    rw [ht.exact hnc, htk]; rfl
+  · intro hk
+    obtain ⟨hr, htk⟩ := hl.eof hk
+    have h1 := take_tokpos hb hg
+    have h2 := take_pos hb
+    rw [hg, htk, List.nil_append] at h2
+    have : data.take i.token.pos.byte = data.take i.pos.byte := by rw [h1, h2]
+    have hd := drop_pos hb
+    rw [hr] at hd
+    have hlen : i.token.pos.byte = i.pos.byte ∨ (data.length ≤ i.token.pos.byte ∧ data.length ≤ i.pos.byte) := by
+      have := congrArg List.length this
+      simp only [List.length_take] at this
+      omega
+    rcases hlen with hlen | hlen
+    · rw [hlen]; exact hd
+    · exact List.drop_eq_nil_of_le hlen.1
+  · intro hk
+    obtain ⟨⟨more, hm⟩, _⟩ := hl.comment hk
+    -- the token text is the scanned bytes without the line end
+    have htext : ∃ more', i.token.text = (more' ++ [47, 47]).reverse := by
+      rcases ht.raw with hr | hr | hr
+      · exact ⟨more, by rw [← hm, ← hr]⟩
+      · have := congrArg List.reverse hr
+        simp only [List.reverse_reverse, List.reverse_append, List.reverse_cons, List.reverse_nil, List.nil_append,
+          List.singleton_append] at this
+        rw [hm] at this
+        cases more with
+        | nil => simp at this
+        | cons a rest =>
+          simp only [List.cons_append, List.cons.injEq] at this
+          exact ⟨rest, by rw [this.2, List.reverse_reverse]⟩
+      · have := congrArg List.reverse hr
+        simp only [List.reverse_reverse, List.reverse_append, List.reverse_cons, List.reverse_nil, List.nil_append,
+          List.cons_append] at this
+        rw [hm] at this
+        match more, this with
+        | [], this => simp at this
+        | [a], this => simp at this
+        | a :: b :: rest, this =>
+          simp only [List.cons_append, List.cons.injEq] at this
+          exact ⟨rest, by rw [this.2.2, List.reverse_reverse]⟩
+    obtain ⟨more', hm'⟩ := htext
+    rw [hm']
+    simp
+  · intro hk
+    have hnc : i.token.kind.isComment = false := by rw [hk]; rfl
+    rw [ht.exact hnc]
+    exact hl.string hk
+  · intro hk
+    have hd : data.drop i.token.endPos.byte = i.remaining := by rw [ht.endPos]; exact drop_pos hb
+    rw [hd]
+    rcases hl.ident hk with h1 | h1
+    · left; rw [← peekRune_eq]; exact h1
+    · right; exact isPrefixOfB_iff.mp h1
+  · intro hk
+    have hcons : i.consumedRev.head? = some 10 ∨ i.remaining = [] := by
+      cases hkind : i.token.kind with
+      | eof => exact Or.inr (hl.eof hkind).1
+      | eolComment => exact (hl.comment (by rw [hkind]; rfl)).2
+      | comment => exact (hl.comment (by rw [hkind]; rfl)).2
+      | punct c =>
+        rw [hkind] at hk
+        have hc : c = 10 := by
+          rcases hk with hk | hk
+          · simpa [TokKind.isEOL] using hk
+          · cases hk
+        subst hc
+        have htxt := ht.punct 10 hkind
+        have hnc : i.token.kind.isComment = false := by rw [hkind]; rfl
+        have := ht.exact hnc
+        rw [htxt] at this
+        have htr : i.tokRev = [10] := by
+          have := congrArg List.reverse this
+          simpa using this.symm
+        left
+        rw [hg, htr]; rfl
+      | ident => rw [hkind] at hk; rcases hk with hk | hk <;> cases hk
+      | string => rw [hkind] at hk; rcases hk with hk | hk <;> cases hk
+    rcases hcons with hc | hc
+    · left
+      rw [take_pos hb]
+      cases hcr : i.consumedRev with
+      | nil => rw [hcr] at hc; cases hc
+      | cons a rest =>
+        rw [hcr] at hc
+        simp only [List.head?_cons, Option.some.injEq] at hc
+        exact ⟨rest.reverse, by rw [hc]; simp⟩
+    · right
+      rw [drop_pos hb]; exact hc
+
+
+theorem reach_rlay {data : Bytes} {i : Input} (h : Reach data i) : RLay data i := by
+  induction h with
+  | start h => exact rlay_of_step (linv0_newInput data) h
+  | lex hj h _ => exact rlay_of_step (reach_tokOK2 hj).inv.toLInv0 h
+  | setId n _ ih => exact ⟨ih.eofText, ih.eof, ih.comment, ih.string, ih.ident, ih.eol⟩
+
+/-- between the end of one token and the start of the next there are only blanks -/
+theorem step_gap {data : Bytes} {j i : Input} (hj : LInv0 data j) (h : readToken j = .ok i) :
+    ∃ gap, WS gap ∧ data.take i.token.pos.byte = data.take j.pos.byte ++ gap := by
+  have ht : TokOK2 data i := by
+    have := readToken_res hj
+    rw [h] at this; exact this
+  obtain ⟨gap, hws, hg⟩ := (readToken_lay h).gap
+  refine ⟨gap, hws, ?_⟩
+  rw [take_tokpos ht.inv.base hg, take_pos hj.base]
+  simp
+
+theorem ws_no_newline {g : Bytes} (h : WS g) : ∀ b ∈ g, (b != 10) = true := by
+  intro b hb
+  rcases h b hb with rfl | rfl | rfl <;> decide
+
+theorem lastLine_append_ws (a g : Bytes) (hg : WS g) (ha : a = [] ∨ ∃ a', a = a' ++ [10]) : lastLine (a ++ g) = g := by
+  unfold lastLine
+  rw [List.reverse_append, List.takeWhile_append_of_pos (by
+    intro b hb; exact ws_no_newline hg b (List.mem_reverse.mp hb))]
+  rcases ha with rfl | ⟨a', rfl⟩
+  · simp
+  · simp
+
+/-- the pending token is the first on its source line, or the input is exhausted -/
+def SOL (data : Bytes) (i : Input) : Prop := WS (lastLine (data.take i.token.pos.byte)) ∨ i.token.kind = .eof
+
+theorem readToken_at_eof {j i : Input} (hr : j.remaining = []) (h : readToken j = .ok i) : i.token.kind = .eof := by
+  unfold readToken at h
+  have hs : skipSpaces (j.remaining.length + 1) j = .ok j := by
+    unfold skipSpaces
+    simp [Input.eof, hr]
+  have he : j.eof = true := by simp [Input.eof, hr]
+  have he2 : (startToken j).eof = true := he
+  simp only [bind, Except.bind, hs, he, he2, Bool.not_true, Bool.false_and, Bool.false_eq_true, if_false, if_true] at h
+  cases h; rfl
+
+theorem sol_first {data : Bytes} {i : Input} (h : readToken (newInput data) = .ok i) : SOL data i := by
+  obtain ⟨gap, hws, hg⟩ := step_gap (linv0_newInput data) h
+  left
+  have : data.take (newInput data).pos.byte = [] := by simp [newInput]
+  rw [hg, this, lastLine_append_ws [] gap hws (Or.inl rfl)]
+  exact hws
+
+theorem sol_after_eol {data : Bytes} {j i : Input} (hj : Reach data j)
+    (hk : j.token.kind.isEOL = true ∨ j.token.kind = .comment) (h : readToken j = .ok i) : SOL data i := by
+  have hinv := (reach_tokOK2 hj).inv
+  rcases (reach_rlay hj).eol hk with ⟨a, ha⟩ | hd
+  · obtain ⟨gap, hws, hg⟩ := step_gap hinv.toLInv0 h
+    left
+    rw [hg, ha, lastLine_append_ws _ gap hws (Or.inr ⟨a, rfl⟩)]
+    exact hws
+  · right
+    apply readToken_at_eof _ h
+    rw [← drop_pos hinv.base]; exact hd
+
+
+/-- a non-comment token's text is exactly the input between its start and its end -/
+theorem tok_exact_take {data : Bytes} {i : Input} (h : TokOK2 data i) (hk : i.token.kind.isComment = false) :
+    data.take i.token.endPos.byte = data.take i.token.pos.byte ++ i.token.text := by
+  obtain ⟨pre, hpre, _⟩ := h.inv.base.tok
+  rw [h.endPos, take_pos h.inv.base, take_tokpos h.inv.base hpre, h.exact hk, hpre, List.reverse_append]
+
+theorem drop_of_take_eq {data g : Bytes} {b c : Nat} (h : data.take c = data.take b ++ g) :
+    data.drop b = g ++ data.drop c := by
+  have h1 : data.take b ++ data.drop b = data.take b ++ (g ++ data.drop c) := by
+    rw [List.take_append_drop, ← List.append_assoc, ← h, List.take_append_drop]
+  exact List.append_cancel_left h1
+
+
+/-- What follows a token: unless the text has the shape of a non-identifier token (empty, one byte, a
+    comment, a quoted string), the input after it does not continue with an identifier rune — or it
+    continues with `//`. -/
+def IdentEnd (data : Bytes) (t : Bytes) (b : Nat) : Prop :=
+  t = [] ∨ t.length = 1 ∨ [47, 47] <+: t ∨ t.head? = some 34 ∨ t.head? = some 96 ∨
+  (isIdent (peekOf (data.drop b)) = false ∨ [47, 47] <+: data.drop b)
+
+theorem reach_identEnd {data : Bytes} {i : Input} (h : Reach data i) :
+    IdentEnd data i.token.text i.token.endPos.byte := by
+  have hrl := reach_rlay h
+  have hf := (reach_tokOK2 h).facts
+  unfold IdentEnd
+  cases hk : i.token.kind with
+  | eof => exact Or.inl (hrl.eofText hk)
+  | eolComment => exact Or.inr (Or.inr (Or.inl (hrl.comment (by rw [hk]; rfl))))
+  | comment => exact Or.inr (Or.inr (Or.inl (hrl.comment (by rw [hk]; rfl))))
+  | punct c => exact Or.inr (Or.inl (by rw [hf.punct c hk]; rfl))
+  | string =>
+    obtain ⟨q, rest, hq, hq'⟩ := hrl.string hk
+    rcases hq' with rfl | rfl
+    · exact Or.inr (Or.inr (Or.inr (Or.inl (by rw [hq]; rfl))))
+    · exact Or.inr (Or.inr (Or.inr (Or.inr (Or.inl (by rw [hq]; rfl)))))
+  | ident => exact Or.inr (Or.inr (Or.inr (Or.inr (Or.inr (hrl.ident hk)))))
+
 end ModVerif.Proofs.ModfileC20
